@@ -10,7 +10,7 @@ Open Scope Z_scope.
 (* user callbacks: the fault points, numbered 0,1,2.. in invocation order *)
 Definition is_cb (t : tev) : bool :=
   match t with
-  | TFilter _ | TKeypress _ | TMouse _ _ _ | TUnhandled _ | TAlarm _ | TPipe _ _ | TFile _ | TRender => true
+  | TFilter _ | TKeypress _ | TMouse _ _ _ | TUnhandled _ | TAlarm _ | TPipe _ _ | TFile _ | TRender | TPopKey _ => true
   | _ => false
   end.
 (* the part of the trace the ordering clauses speak about: callbacks and screen.draw_screen *)
@@ -56,60 +56,97 @@ Definition spec_after (k : key) : list tev := if is_redraw k then [] else spec_u
 Definition widget_keypress (x : Z) : Z := assoc_default (w_keys c) x x.     (* 0 = handled *)
 Definition widget_mouse (b : Z) : bool := memz b (w_mouse c).
 
-(* one key of a batch: the widget first; the unhandled-input handler exactly when not handled *)
-Definition spec_key (k : key) : list tev :=
+(* Threading the pop-up state ([o]: the launcher's pop-up is open) through a list of inputs. *)
+Fixpoint thread {X} (f : bool -> X -> list tev * bool) (o : bool) (l : list X) : list tev * bool :=
+  match l with
+  | [] => ([], o)
+  | x :: r => (fst (f o x) ++ fst (thread f (snd (f o x)) r), snd (thread f (snd (f o x)) r))
+  end.
+
+(* the PopUpTarget shows the Overlay (pop-up on top of the body) once it has looked at the launcher *)
+Definition pop_shown (o : bool) : bool := c_pop_ups c && o.
+
+(* A key goes to the TOPMOST widget: the open pop-up if there is one, else the body behind the launcher.
+   [keypress_cb]: whose keypress is called; [keypress_result]: what it returns (0 = None = handled;
+   the launcher itself consumes key 111, 'o', and opens its pop-up; the pop-up consumes key 120, 'x', and
+   closes, and handles the keys of [w_pop_keys]); [keypress_open]: is the pop-up open afterwards. *)
+Definition keypress_cb (o : bool) (x : Z) : tev :=
+  if pop_shown o then TPopKey x else TKeypress x.
+Definition keypress_result (o : bool) (x : Z) : Z :=
+  if pop_shown o then (if x =? 120 then 0 else if memz x (w_pop_keys c) then 0 else x)
+  else if c_launcher c && (x =? 111) then 0 else widget_keypress x.
+Definition keypress_open (o : bool) (x : Z) : bool :=
+  if pop_shown o then (if x =? 120 then false else o)
+  else if c_launcher c && (x =? 111) then true else o.
+
+(* one key of a batch: the topmost widget first; the unhandled-input handler exactly when that widget
+   did not handle it.  Result: the callbacks, and whether the pop-up is open afterwards. *)
+Definition spec_key (o : bool) (k : key) : list tev * bool :=
   match k with
-  | KResize => []
+  | KResize => ([], o)
   | KKey x =>
       if w_selectable c then
-        overlay_spec ++ [TKeypress x] ++
-        (if widget_keypress x =? 0 then [] else spec_after (KKey (widget_keypress x)))
-      else spec_after k
+        (overlay_spec ++ [keypress_cb o x] ++
+         (if keypress_result o x =? 0 then [] else spec_after (KKey (keypress_result o x))),
+         keypress_open o x)
+      else (spec_after k, o)
   | KMouse b cl rw =>
-      if w_has_mouse c then
-        overlay_spec ++ [TMouse b cl rw] ++ (if widget_mouse b then [] else spec_after k)
-      else spec_after k
+      if pop_shown o then (overlay_spec ++ spec_after k, o)      (* the pop-up widget ignores the mouse *)
+      else if w_has_mouse c then
+        (overlay_spec ++ [TMouse b cl rw] ++ (if widget_mouse b then [] else spec_after k), o)
+      else (spec_after k, o)
   end.
+Definition spec_keys := thread spec_key.
 (* one batch of input: the filter first, then every surviving key in order *)
-Definition spec_update (ks : list key) : list tev :=
-  spec_filter ks ++ flat_map spec_key (filtered ks).
-(* the redraw: render the topmost widget, then screen.draw_screen *)
-Definition spec_draw : list tev := overlay_spec ++ [TRender; TDraw].
-Definition spec_event (e : event) : list tev :=
+Definition spec_update (o : bool) (ks : list key) : list tev * bool :=
+  (spec_filter ks ++ fst (spec_keys o (filtered ks)), snd (spec_keys o (filtered ks))).
+(* the redraw: render the topmost widget (body and, when open, the pop-up), then screen.draw_screen *)
+Definition spec_draw (o : bool) : list tev :=
+  overlay_spec ++ (if pop_shown o then [TRender; TRender] else [TRender]) ++ [TDraw].
+Definition spec_event (o : bool) (e : event) : list tev * bool :=
   match e with
-  | EInput ks => spec_update ks
-  | EResize => spec_update [KResize]
-  | EAlarm i => [TAlarm i]
-  | EPipe i d => [TPipe i d]
-  | EFile i => [TFile i]
+  | EInput ks => spec_update o ks
+  | EResize => spec_update o [KResize]
+  | EAlarm i => ([TAlarm i], o)
+  | EPipe i d => ([TPipe i d], o)
+  | EFile i => ([TFile i], o)
   end.
 (* a round: its events in arrival order, then the redraw before the loop waits again *)
-Definition spec_round (r : list event) : list tev := flat_map spec_event r ++ spec_draw.
-Definition spec_alarm (a : alarm) : list tev :=
-  match a with AUser i => [TAlarm i] | AEnteringIdle => spec_draw end.
+Definition spec_round (o : bool) (r : list event) : list tev * bool :=
+  (fst (thread spec_event o r) ++ spec_draw (snd (thread spec_event o r)), snd (thread spec_event o r)).
+Definition spec_alarm (o : bool) (a : alarm) : list tev :=
+  match a with AUser i => [TAlarm i] | AEnteringIdle => spec_draw o end.
 
 (* run() on a screen with hook_event_loop: the alarms set before run(), the initial redraw
    (start() schedules it as an alarm), the first idle redraw, then round after round *)
 Definition spec_hook_session (rounds : list (list event)) : list tev :=
-  flat_map spec_alarm (map AUser (c_pre_alarms c) ++ [AEnteringIdle]) ++ spec_draw ++ flat_map spec_round rounds.
+  flat_map (spec_alarm false) (map AUser (c_pre_alarms c) ++ [AEnteringIdle]) ++ spec_draw false ++
+  fst (thread spec_round false rounds).
 
 (* run() on a screen without hook_event_loop (_run_screen_event_loop): redraw, then per get_input
    result that is not an idle time-out: filter, keys, every due alarm, redraw *)
-Fixpoint spec_screen_loop (pending : list alarm) (inputs : list (list key)) : list tev :=
+Fixpoint spec_screen_loop (o : bool) (pending : list alarm) (inputs : list (list key)) : list tev :=
   match inputs with
   | [] => []
   | b :: rest =>
-      if is_nil b && is_nil pending then spec_screen_loop pending rest
-      else spec_update b ++ flat_map spec_alarm pending ++ spec_draw ++ spec_screen_loop [] rest
+      if is_nil b && is_nil pending then spec_screen_loop o pending rest
+      else fst (spec_update o b) ++ flat_map (spec_alarm (snd (spec_update o b))) pending ++
+           spec_draw (snd (spec_update o b)) ++ spec_screen_loop (snd (spec_update o b)) [] rest
   end.
 Definition spec_plain_session (inputs : list (list key)) : list tev :=
-  spec_draw ++ spec_screen_loop (map AUser (c_pre_alarms c)) inputs.
+  spec_draw false ++ spec_screen_loop false (map AUser (c_pre_alarms c)) inputs.
 
 Definition spec_session (rounds : list (list event)) (inputs : list (list key)) : list tev :=
   if c_hook c then spec_hook_session rounds else spec_plain_session inputs.
 
-(* PopUpTarget wraps a Widget, and every urwid.Widget has mouse_event *)
-Definition wf_config : Prop := c_pop_ups c = true -> w_has_mouse c = true.
+(* whether the pop-up is open after a batch of keys / after whole rounds *)
+Definition open_after_keys (o : bool) (ks : list key) : bool := snd (spec_keys o ks).
+
+(* PopUpTarget wraps a Widget, and every urwid.Widget has mouse_event; a PopUpLauncher is of use only
+   below a PopUpTarget.  (Boolean, so that it can be decided for a concrete configuration.) *)
+Definition wf_configb : bool :=
+  (negb (c_pop_ups c) || w_has_mouse c) && (negb (c_launcher c) || c_pop_ups c).
+Definition wf_config : Prop := wf_configb = true.
 
 End Spec.
 
